@@ -183,8 +183,11 @@ THREADFUNC_DECL TaskScheduler::TaskingThreadFunction( void* pArgs )
         }
     }
 
-    AtomicAdd( &pTS->m_NumThreadsRunning, -1 );
+    // the decrement must be this thread's last access to the scheduler:
+    // StopThreads() returns, and the scheduler may be deleted, as soon as
+    // the count drops
     SafeCallback( pTS->m_ProfilerCallbacks.threadStop, threadNum );
+    AtomicAdd( &pTS->m_NumThreadsRunning, -1 );
 
     return 0;
 }
